@@ -1,6 +1,7 @@
 use cfg_aliases::cfg_aliases;
 
 fn main() {
+    println!("cargo::rustc-check-cfg=cfg(iroh_verif)");
     cfg_aliases! {
         wasm_browser: { all(target_family = "wasm", target_os = "unknown") },
         with_crypto_provider: { any(feature = "tls-ring", feature = "tls-aws-lc-rs") }
